@@ -61,14 +61,26 @@ def oracle_doc(text, items, im):
     return bad
 
 
-def level_b(ctx, docs, impls):
-    """Spec of the Level B theorems against the generator's record and the implementation."""
+def level_b(ctx, docs, impls, finding_docs=()):
+    """Spec of the Level B theorems against the generator's record and the implementation.
+    The witnesses of the listed finding must lie OUTSIDE the proved grammar."""
     model = ctx.model('sheet')
     if model is None:
         return
     cases, idx = [], []
     stat = {'sheets': len(docs), 'in_grammar': 0, 'outside': {}, 'render_differs': 0, 'record_differs': 0,
-            'implementation_differs': 0}
+            'implementation_differs': 0, 'finding_witnesses_outside': 0}
+    for text, items in finding_docs:
+        try:
+            w = model.run([SU.enc_sheet(SU.build_sheet(text, items))])[0]
+            r = SU.decode(w)
+            if r is not None and r[0]:
+                # a sheet of the proved grammar on which the property is recorded to fail
+                ctx.broken.append({'kind': 'level-b-tie', 'file': 'finding-witness-inside-proved-grammar', 'input': text})
+            else:
+                stat['finding_witnesses_outside'] += 1
+        except SU.Outside:
+            stat['finding_witnesses_outside'] += 1
 
     def outside(why):
         stat['outside'][why] = stat['outside'].get(why, 0) + 1
@@ -200,7 +212,7 @@ def run(ctx):
         ctx.cov['correspondence']['css_matcher'] = {'sheets': len(docs), 'positions': sum(len(t) + 3 for t in texts),
                                                     'disagreements': dis}
     if ok:
-        level_b(ctx, docs, impls)
+        level_b(ctx, docs, impls, [(c['text'], c['items']) for c in corpus if c.get('finding_key')])
 
 
 def replay(ctx, obj):
